@@ -20,6 +20,10 @@ MANIFEST = {
                   "invariant written ++ workSpace[0..workPos) = prefix), C08_zero_size_at_eof_refuted (pinned `for {` refill loop). "
                   "C08_copy_samples_end_to_end (coq/c08/C08ComposedTheorems.v: composed with C09's model of GetContainingChunks - for "
                   "C09-consistent tables and every 1 <= a <= b <= N the chunk list satisfies chunks_cover); "
+                  "C08_file_mdat_equal / C08_file_mdat_spec (which top-level mdat becomes File.Mdat - the DecodeFile pre-check plus File.AddChild - for ANY "
+                  "arrangement of any number of empty / non-empty mdat boxes: both modes fail together or select the same box (StartPos, "
+                  "LargeSize, Size(), PayloadAbsoluteOffset()); the one non-empty mdat wins whatever empty ones precede or follow it; "
+                  "C08_file_mdat_datalength_refuted shows the statement fails if emptiness is read off the in-memory payload only); "
                   "C08_tree_equal (DecodeFile's top-level walk over any sequence of boxes, mdat anywhere, 8/16-byte headers: both modes "
                   "give the same type/StartPos/Size per box and LargeSize per mdat; boxes other than mdat are opaque because the same Go "
                   "decoder runs on them in both modes - below the top level the equality is explored by the search: Info dump, sizes and "
@@ -88,7 +92,7 @@ def run(ctx):
         key = (p[0], ctxf if p[0] != "F" else "", "\t".join(p[2:]))
         if any(x.startswith("o:") for x in p[2:]):
             distinct.add(key)
-    kinds = {k: sum(1 for l in lines if l.startswith(k + "\t")) for k in ("F", "R", "H", "S", "T", "W")}
+    kinds = {k: sum(1 for l in lines if l.startswith(k + "\t")) for k in ("F", "R", "H", "S", "T", "W", "M")}
     hyp = {"R": 0, "S": 0, "W": 0}
     for l, r in zip(lines, res):
         if r.endswith(" H"):
